@@ -24,15 +24,18 @@ _HQ = {}
 
 def has_quant(t):
     i = t.get_id()
-    r = _HQ.get(i)
-    if r is None:
-        if z3.is_quantifier(t):
-            r = True
-        elif z3.is_app(t):
-            r = any(has_quant(c) for c in t.children())
-        else:
-            r = False
-        _HQ[i] = r
+    e = _HQ.get(i)
+    if e is not None and e[0].eq(t):
+        return e[1]
+    if z3.is_quantifier(t):
+        r = True
+    elif z3.is_app(t):
+        r = any(has_quant(c) for c in t.children())
+    else:
+        r = False
+    if len(_HQ) > 200000:
+        _HQ.clear()
+    _HQ[i] = (t, r)      # the term is kept alive: z3 re-uses ids of collected terms
     return r
 
 
